@@ -25,7 +25,8 @@ CLAIMED = {
              'every path; one op at an arbitrary ip from an arbitrary state covers runs of any length by induction over ops.',
         note='Trusted: pyspec (validated against the featured loop on the repo programs), z3, the pysym proxies (validated '
              'differentially against int), the single-bit rewrite lemmas (proved per width on every run). Bounds: K<=2 (3 at '
-             'w=8 in thorough), <=2 lazy-zero ranges; GarbageHandling.Stop only.',
+             'w=8 in thorough), <=2 lazy-zero ranges; GarbageHandling.Stop only. Native flat loop: quick runs ip bit offsets {0, 1, w/2, w-1} at '
+             'w = 8, 16, 64 and the aligned op at w = 32 (unaligned w=32 ops: thorough tier).',
         technique=_T_PYSYM + '; product-program comparison with a reference step', ref='DESIGN.md 2/C01'),
     'C06': dict(
         text='Bounded symbolic verification: the real Writer (add_data/add_segment/write_to_file) runs on symbolic segment '
